@@ -27,6 +27,8 @@
       record before or is carried by a point of the interrupted write; the data
       readable afterwards is the data readable before (minus the data of the
       measurement being dropped);
+    * an acknowledged drop of a measurement `m` that had readable data removes every
+      field of `m` from the record (so its fields may be re-created with other types);
     * a drop of `m` leaves the other measurements untouched and adds nothing; once
       it has removed the fields of `m` from the record, no restart brings a field of
       `m` back (until a later write mentions `m` again);
@@ -116,6 +118,9 @@ def stepFails (M : Mem) : Step10 → Option String × Mem
                       dropped := if removed then (if M.dropped.contains m then M.dropped else m :: M.dropped)
                                  else M.dropped.filter (· != m) }
     let r := seenFails after
+    -- dropping a measurement that had data removes its field schema
+    let r := r.or (if (storeOf M.cur).any (fun e => e.1.1 == m) && hasMeas after.sch m
+                   then some "dropped-measurement-present:" else none)
     let r := r.or (if sameSchema (M.cur.sch.filter (fun e => e.1.1 != m)) (after.sch.filter (fun e => e.1.1 != m))
                    then none else some "drop-changed-others:")
     let r := r.or (if subSchema after.sch M.cur.sch then none else some "drop-invented-type:")
